@@ -83,9 +83,16 @@ def completeness_violations(spec, live, rng, trig, replay, n_inputs=3):
     out = []
     base_obs = live.rs.observe()
     reach = eo.reachable_spec_names(spec)
-    for _ in range(n_inputs):
+    # a step in which no time is spent, followed by steps with jobs, is an input like any other: it goes first
+    zero_steps = [n for n in sorted(spec["steps"]) if n in reach and spec["steps"][n]["user_time_spent"]["m"] == 0]
+    rng.shuffle(zero_steps)
+    for k in range(n_inputs):
         op = None
-        for _ in range(20):
+        if k == 0 and zero_steps:
+            op = {"op": "setq", "kind": "steps", "name": zero_steps[0], "param": "user_time_spent", "value": {"m": rng.choice([1, 2, 3]), "u": "hour"}}
+            if not eo.safe_after(live, op):
+                op = None
+        for _ in range(0 if op else 20):
             op = history.gen_numeric_edit(rng, spec)
             if op and op["name"] in reach and eo.safe_after(live, op) and op["param"] not in ("fixed_nb_of_instances",):
                 break
@@ -136,6 +143,10 @@ def shard(args):
         if i % 3 != 0:
             if history.has_shared_job(spec):
                 spec = specgen.unshare_jobs(spec)      # own journey, steps and jobs per usage pattern
+            if i % 3 == 1:
+                sp3 = specgen.plant_corners(spec, rng)  # … with a journey in which no time is spent
+                if specgen.spec_is_safe(sp3, realsys.unit_info):
+                    spec = sp3
         try:
             with watchdog(60):
                 live = Live(spec)
@@ -168,7 +179,7 @@ def shard(args):
         out["phases"]["after-edits"] = out["phases"].get("after-edits", 0) + 1
         out["violations"] += chain_violations(nodes, trig_now(), {"spec": spec, "ops": list(ops)}, rng)
         out["chains"] += 1
-        if rng.random() < 0.5:
+        if rng.random() < 0.5 or any(st["user_time_spent"]["m"] == 0 for st in live.spec["steps"].values()):
             out["violations"] += completeness_violations(live.spec, live, rng, trig_now(), {"spec": spec, "ops": list(ops)})
             out["perturbations"] += 1
         # the exported graph resolves: every id listed in the JSON export names an exported value
